@@ -6,6 +6,10 @@ namespace SaphyrVerif.Lemmas.C03
 open SaphyrVerif SaphyrVerif.Scalars SaphyrVerif.Pump SaphyrVerif.De SaphyrVerif.Spec
 open SaphyrVerif.Lemmas.C04 (keys)
 
+/-- the tree-level null test of a scalar merge value is the model's `mergeScalarIsNull` -/
+@[simp] theorem isNullMergeNode_scalar (v : List Char) (tag : Nat) (rt : Option (List Char)) (st : Style) (a : Nat) (l : Loc) :
+    isNullMergeNode (.scalar v tag rt st a l) = mergeScalarIsNull v st tag := rfl
+
 /-! ### `splitEntries` -/
 
 theorem splitEntries_cons (k v : ENode) (rest : List (ENode × ENode)) :
